@@ -159,6 +159,12 @@ func c04Gen(rt *rapid.T) c04Case {
 		c.dt = rapid.SampledFrom([]tensor.Dtype{tensor.Float32, tensor.Float32, tensor.Float32, tensor.Float64, tensor.Int32, tensor.Int64, tensor.Uint32, tensor.Uint64}).Draw(rt, "dtype")
 		dim := func(l string) int { return genExtent(4).Draw(rt, l) }
 		m, k, n := dim("m"), dim("k"), dim("n")
+		for m*k > 1500 {
+			m = (m + 1) / 2
+		}
+		for k*n > 1500 {
+			n = (n + 1) / 2
+		}
 		ra := rapid.SampledFrom([]int{1, 2, 2, 3, 3, 4, 5}).Draw(rt, "rankA")
 		rb := rapid.SampledFrom([]int{1, 2, 2, 3, 3, 4, 5}).Draw(rt, "rankB")
 		// batch shapes: broadcast pair built from a common batch shape
@@ -235,6 +241,15 @@ func c04Gen(rt *rapid.T) c04Case {
 	case "Gemm":
 		c.dt = rapid.SampledFrom([]tensor.Dtype{tensor.Float32, tensor.Float32, tensor.Float32, tensor.Float64, tensor.Int32, tensor.Int64, tensor.Uint32, tensor.Uint64}).Draw(rt, "dtype")
 		m, k, n := genExtent(5).Draw(rt, "m"), genExtent(5).Draw(rt, "k"), genExtent(5).Draw(rt, "n")
+		for m*k > 1500 {
+			m = (m + 1) / 2
+		}
+		for k*n > 1500 {
+			n = (n + 1) / 2
+		}
+		for m*n > 1500 {
+			m = (m + 1) / 2
+		}
 		transA, transB := rapid.Bool().Draw(rt, "transA"), rapid.Bool().Draw(rt, "transB")
 		alpha, beta := 1.0, 1.0
 		var attrs []*onnx.AttributeProto
@@ -381,6 +396,12 @@ func c04Gen(rt *rapid.T) c04Case {
 		}
 	case "LinearRegressor":
 		nS, f, tg := genExtent(4).Draw(rt, "n"), genExtent(4).Draw(rt, "features"), genExtent(4).Draw(rt, "targets")
+		for nS*f > 1500 {
+			nS = (nS + 1) / 2
+		}
+		for tg*f > 1500 {
+			tg = (tg + 1) / 2
+		}
 		c.dt = rapid.SampledFrom([]tensor.Dtype{tensor.Float32, tensor.Float32, tensor.Float32, tensor.Float64, tensor.Int32, tensor.Int64}).Draw(rt, "dtype")
 		xv := genDotValues(rt, nS*f, "x")
 		X := toDtype(c.dt, []int{nS, f}, xv)
@@ -425,6 +446,9 @@ func c04Gen(rt *rapid.T) c04Case {
 		c.ref = r
 	case "Scaler":
 		nS, f := genExtent(4).Draw(rt, "n"), genExtent(5).Draw(rt, "features")
+		for nS*f > 1500 {
+			nS = (nS + 1) / 2
+		}
 		c.dt = rapid.SampledFrom([]tensor.Dtype{tensor.Float32, tensor.Float32, tensor.Float32, tensor.Float64, tensor.Int32, tensor.Int64}).Draw(rt, "dtype")
 		X := toDtype(c.dt, []int{nS, f}, genDotValues(rt, nS*f, "x"))
 		xv := f64s(X)
